@@ -79,7 +79,7 @@ pub fn replay(case: &Value) -> Vec<Violation> {
         "c11_issuer" | "c11_holder" => c11::replay(case),
         "c04" | "c04_text" | "c04_cross" => c04::replay(case),
         "c08" | "c08_after" => c08::replay(case),
-        "c02" | "c02_kid" | "c02_after" | "c02_key" | "c02_control" | "c02_iss" | "c02_iss_pair" => c02::replay(case),
+        "c02" | "c02_kid" | "c02_header" | "c02_after" | "c02_key" | "c02_control" | "c02_iss" | "c02_iss_pair" => c02::replay(case),
         k => {
             eprintln!("replay: unknown case kind {k}");
             vec![]
